@@ -163,7 +163,6 @@ Section Orig.
      and a recomputed /Count *)
   Inductive norm_of : mode -> N -> obj -> Prop :=
   | NGen : forall wp dest n, norm_of (MGen wp dest) n (gobj n)
-  | NLazy : forall n, norm_of MLazy n (gobj n)
   | NPage : forall n d, gobj n = ODict d -> norm_of MPage n (ODict d)
   | NRoot : forall n d0, gobj n = ODict d0 ->
       norm_of MRoot n (ODict (if delv then ddel kVersion d0 else d0))
@@ -237,8 +236,6 @@ Section Orig.
           exact (Hgen _ _ eq_refl H).
         * destruct o as [|tg v|z|nm|k|l|d|d x]; try (exact (Hgen _ _ eq_refl H)); try discriminate.
           destruct (is_page d); simpl in H; [inversion H; subst; exact Hg|exact (Hgen _ _ eq_refl H)].
-        * inversion H; subst. apply good_cons; [exact Hg|].
-          replace o with (gobj n) by (unfold gobj; rewrite L; reflexivity). constructor.
       + inversion H; subst. apply good_cons; [exact Hg|].
         replace ONull with (gobj n) by (unfold gobj; rewrite L; reflexivity). constructor.
   Qed.
